@@ -9,7 +9,7 @@ for d in sorted(glob.glob('/verif/seeded/*')):
     last={}
     if os.path.exists(d+'/check.log'):
         for l in open(d+'/check.log'):
-            m=re.match(r'== (\S+) (\S+) check=(\S+) tier=(\S+) repo=(\S+) exit=(\d+) :: (.*)',l)
+            m=re.match(r'== (\S+) (\S+) check=(\S+) tier=(\S+) repo=(\S+)(?: verif=\S+)? exit=(\d+) :: (.*)',l)
             if m:
                 _,_,chk,tier,repo,rc,msg=m.groups()
                 cls=re.search(r'class=(\S+)',msg)
